@@ -45,6 +45,10 @@ def run(ctx: Ctx):
     rep = fx.PurityReport(ctx, "FX-PARAM", c10.designed_mutators(ctx))
     fx.check_params_pure(ctx, "FX-PARAM", an, oz, ["qf", "element"], rep, c10.EXEMPT_ORIGINS)
     rep.flush()
+    # decode_output reads the measured string through interpret_as_qtype (tuple / list arguments)
+    from . import c09
+
+    ctx.section(c09.check_nested_decoding, ctx)
     check_program(ctx, init)
     c16.check_decoders(ctx, ci, "self.oracle")
     check_oraclize(ctx, oz)
